@@ -59,8 +59,9 @@ func heuristicFreshness(h http.Header, date time.Time) time.Duration {
 	if !ok || !lastMod.Before(date) {
 		return 0
 	}
-	delta := date.Sub(lastMod)
-	return time.Duration(float64(delta) * 0.1).Round(time.Second)
+	// At most 10% of the interval since the last modification (RFC9111 §4.2.2);
+	// integer division rounds down so the bound is never exceeded.
+	return date.Sub(lastMod) / 10
 }
 
 // calculateCurrentAge implements RFC9111 §4.2.3 for calculating the current age of a cached response
